@@ -8,3 +8,21 @@ func VerifMergeACL() { cisco.VerifMergeACL(cmdInfo, "ASA") }
 func VerifASAACL() { cisco.VerifASAACL(cmdInfo) }
 
 func VerifDeterminismASA() { cisco.VerifDeterminismASA(cmdInfo) }
+
+func VerifRoutesASA() {
+	cisco.VerifRoutes(cisco.VerifRouteAPI{Model: "ASA", Changes: func(device, target string) ([]string, error) {
+		s := Setup()
+		c1, err := s.ParseConfig([]byte(device), "<device>")
+		if err != nil {
+			return nil, err
+		}
+		c2, err := s.ParseConfig([]byte(target), "router")
+		if err != nil {
+			return nil, err
+		}
+		if err := s.GetChanges(c1, c2); err != nil {
+			return nil, err
+		}
+		return s.Changes, nil
+	}})
+}
